@@ -44,11 +44,19 @@ func Sign(ctx context.Context, r io.Reader, cert *certloader.Certificate, hashTy
 	if toc == nil {
 		return nil, nil, errors.New("missing xar/toc element")
 	}
-	origSigSize := removeSigs(toc)
+	origSigSize, err := removeSigs(toc)
+	if err != nil {
+		return nil, nil, err
+	}
 	// reserve space for new signatures and insert elements into TOC
 	newSigSize := reserveSignatures(toc, hashType, cert.Certificates)
 	// verify and discard remaining input files
 	heap := &streamReaderAt{r: r}
+	// the old signatures are at the start of the heap and will be replaced by
+	// the patch, so make sure they are really there
+	if _, err := heap.ReadAt(nil, origSigSize); err != nil {
+		return nil, nil, fmt.Errorf("reading old signatures: %w", err)
+	}
 	if err := checkFiles(toc, heap); err != nil {
 		return nil, nil, err
 	}
@@ -86,12 +94,15 @@ func tocEtree(r io.Reader, compressedSize int64) (*etree.Document, error) {
 }
 
 // remove checksum and signatures and return the heap size they occupied
-func removeSigs(toc *etree.Element) (size int64) {
+func removeSigs(toc *etree.Element) (size int64, err error) {
 	for _, key := range []string{"checksum", "signature", "x-signature"} {
 		for _, el := range toc.SelectElements(key) {
 			se := el.SelectElement("size")
 			if se != nil {
 				n, _ := strconv.ParseInt(se.Text(), 10, 64)
+				if n < 0 || size+n < size {
+					return 0, fmt.Errorf("invalid size in %s element", key)
+				}
 				size += n
 			}
 			el.Parent().RemoveChild(el)
